@@ -127,6 +127,33 @@ func c06ReplayCase(c *Ctx) *Result {
 		}
 	}
 	time.Sleep(time.Duration(offset) * time.Second)
+	// things that happen on a live server between the original and the replay and must not make it forget
+	between := pick(rngFor(c.Seed, "C06-between", c.Idx), "nothing", "nothing", "reload-users", "same-prefix-garbage")
+	params["between"] = between
+	switch between {
+	case "reload-users":
+		// the operator reloads the user list (one user added, the others unchanged)
+		um := usersMap(append(append([]UserSpec(nil), users...), UserSpec{"carol", "carol-secret"}))
+		env.Srv.SetServerUsers(um)
+	case "same-prefix-garbage":
+		// a party without any credential sends something that starts like the recording and continues with garbage
+		junk := make([]byte, 200)
+		r.Read(junk)
+		if udp && len(dgrams) > 0 {
+			g := append(append([]byte(nil), dgrams[0][:24]...), junk...)
+			pc := env.Net.OpenPacket("10.0.8.8", 0)
+			pc.WriteTo(g, replayTo)
+			time.Sleep(100 * time.Millisecond)
+			pc.Close()
+		} else if !udp && len(stream) >= 24 {
+			gep := env.Net.Endpoint("10.0.8.8")
+			if gc, err := gep.DialContext(context.Background(), "tcp", replayTo.String()); err == nil {
+				gc.Write(append(append([]byte(nil), stream[:24]...), junk...))
+				time.Sleep(100 * time.Millisecond)
+				gc.Close()
+			}
+		}
+	}
 	if rotation {
 		// make sure a genuine look-up happens after the rotation instant so the
 		// generation rotates before the replays (any traffic does it)
@@ -228,7 +255,7 @@ func c06ReplayCase(c *Ctx) *Result {
 	if rotation {
 		res.Obs["rotation_cases"] = 1
 	}
-	res.Shape = shapeHash(udp, offset, mode, repeats, origOpen, concurrentFresh, rotation, otherPort)
+	res.Shape = shapeHash(udp, offset, mode, repeats, origOpen, concurrentFresh, rotation, otherPort, between)
 	tr := "tcp"
 	if udp {
 		tr = "udp"
